@@ -230,11 +230,17 @@ def run(ctx):
 
     res.rules["M-NONE"] = "order / size are tested with `is None`, never by truthiness (order 0 is a legitimate restriction)"
     res.rules["M-EXCL"] = "order and size together are rejected"
-    M.check_none_tests(ctx, res, "configuration_model.configuration_model")
-    M.check_exclusion(ctx, res, "configuration_model.configuration_model")
-    check_reshuffle(ctx, res)
-    check_writeback(ctx, res)
-    check_complement(ctx, res)
-    check_directed_swap(ctx, res)
+    with res.guard("M.check_none_testsctx, res, configuration_model.configuration_model"):
+        M.check_none_tests(ctx, res, "configuration_model.configuration_model")
+    with res.guard("M.check_exclusionctx, res, configuration_model.configuration_model"):
+        M.check_exclusion(ctx, res, "configuration_model.configuration_model")
+    with res.guard("check_reshufflectx, res"):
+        check_reshuffle(ctx, res)
+    with res.guard("check_writebackctx, res"):
+        check_writeback(ctx, res)
+    with res.guard("check_complementctx, res"):
+        check_complement(ctx, res)
+    with res.guard("check_directed_swapctx, res"):
+        check_directed_swap(ctx, res)
     res.assumptions += ["the vertex-labelled sampler is outside the property's quantifier (label in {'edge','stub'})", "an unrecognised rewrite of these functions is an ANALYSIS-ERROR (exit 2), not a violation"]
     return res
